@@ -218,14 +218,17 @@ def fault_case_coq(fi):
         if c == "remove":
             return "Rm %s" % ent(e["dir"] + "/" + e["name"])
         raise ValueError(c)
-    unord, seen_rm, inuse = [], False, []
+    # the out-of-order inputs retired after the log removal, in order (one or two mutations per input: removal / parking today,
+    # parking then removal after fix5); the files a reader holds come from the harness, not from the observed mutations
+    unord, seen_rm = [], False
     for e in dry["events"]:
         if e["class"] == "logremove":
             seen_rm = True
         elif seen_rm and e["class"] in ("remove", "rename"):
-            unord.append(e["dir"] + "/" + e["name"])
-        if e["class"] == "rename" and e.get("name2") == e["name"] + ".init":
-            inuse.append(e["dir"] + "/" + e["name"])
+            n = strip_init(e["dir"] + "/" + e["name"])[0]
+            if n not in unord:
+                unord.append(n)
+    inuse = [n for n in (fi.get("heldnames") or []) if strip_init(n)[0] in ids]
     fruns = []
     for r in runs:
         lo = r.get("logold") or dry.get("logold") or []
@@ -687,25 +690,32 @@ def main(ck):
         fcanary = False
     if fcanary:
         rc2, o = fres.pop()
-        tups = eval_tuples(o, rc2, 4)
+        tups = eval_tuples(o, rc2, 5)
         if tups is None or {t[0] for t in tups} != set(range(NCAN2)):
             ck.broken.append("C03 fault canary: a corrupted case was not reported by the fault model evaluation (read back: %s)"
                              % (o[-300:] if tups is None else sorted(tups)[:NCAN2]))
     fmism = []
     f_current = 0
+    f_current_u = 0
     for idx, (rc2, o) in enumerate(fres):
-        tups = eval_tuples(o, rc2, 4)
+        tups = eval_tuples(o, rc2, 5)
         if tups is None:
             ck.broken.append("fault model evaluation failed on shard %d: %s" % (idx, o[-400:]))
             continue
-        for a, b, c, d in tups:
+        for a, b, c, d, e in tups:
             fi, _, runs = fmod[idx * fshard + a]
-            if d == 0 and c != 60:
-                f_current += 1      # the tree implements today's delete loop (variant Current) on a distinguishing run
+            if c == 60:
+                fmism.append((fi, runs[0], c))
+            elif d == 0:
+                f_current_u += 1    # delete loop repaired, deleteUnorderedFiles as today (finding C03-unordered-delete-gap)
+                if not ck.match_finding("C03-unordered-delete-gap"):
+                    fmism.append((fi, runs[b], c))
+            elif e == 0:
+                f_current += 1      # the tree implements yesterday's delete loop of ReplaceFiles as well
                 if not ck.match_finding("C03-replace-delete-abort"):
                     fmism.append((fi, runs[b], c))
             else:
-                fmism.append((fi, runs[b] if c != 60 else runs[0], c))
+                fmism.append((fi, runs[b], c))
     if fmism and not oracle and not col_viol and not f_viol and not cur_viol:
         fi, r, code = fmism[0]
         ck.broken.append("correspondence C03 fault model/implementation differs: fault case %d op %s %s at %s: %s" % (
@@ -740,6 +750,7 @@ def main(ck):
             fhist[k] = fhist.get(k, 0) + 1
     ck.cov["fault_cases"] = {"cases": len(faults), "runs": nfruns, "histogram": fhist, "cases_compared_with_fault_model": len(fmod),
                              "model_mismatches": len(fmism), "runs_matching_variant_current_only": f_current,
+                             "runs_matching_todays_unordered_deletion_only": f_current_u,
                              "known_finding_failures": f_known}
     nimg += nfruns
     ck.cov["cursor_cases"] = {"cases": len(curs), "crash_images_read_through_cursors": sum(c.get("images", 0) for c in curs),
